@@ -84,7 +84,7 @@ theorem EntryCase.xmirror {e e' : LookupEnc} {k oid} {t : LookupDec} (wf : e.loo
   cases c with
   | hit i hm he ho =>
     subst he ho
-    refine ⟨t, rfl, ⟨⟨m.em.size, m.em.len, m.em.la, ?_⟩, ?_⟩, rfl, fun _ => rfl⟩
+    refine ⟨t, rfl, ⟨⟨by simpa using m.em.size, by simpa using m.em.len, m.em.la, ?_⟩, ?_⟩, rfl, fun _ => rfl⟩
     · intro k' i' h
       exact m.em.res k' i' ((Lookup.mem_bump hm).mp h)
     · intro j k' h
@@ -99,10 +99,10 @@ theorem EntryCase.xmirror {e e' : LookupEnc} {k oid} {t : LookupDec} (wf : e.loo
       split <;> simp_all
     refine ⟨_, assign_eq (i := e.lookup.data.length + 1) (by omega) (by have := m.em.size; omega) hid,
       ?_, rfl, ?_⟩
-    · apply xmirror_after_set (l' := ⟨e.lookup.maxSize, e.lookup.data ++ [(k, e.lookup.data.length + 1)],
-        e.lookup.data.length + 1 == e.lookup.maxSize⟩) wf m rfl (by omega) (by omega)
+    · apply xmirror_after_set (l' := (⟨e.lookup.maxSize, e.lookup.data ++ [(k, e.lookup.data.length + 1)],
+        e.lookup.data.length + 1 == e.lookup.maxSize, e.lookup.pinned⟩ : Lookup).pin k) wf m (by simp) (by omega) (by omega)
       intro k' i'
-      simp only [List.mem_append, List.mem_singleton]
+      simp only [Lookup.pin_data, List.mem_append, List.mem_singleton]
       constructor
       · rintro (hm' | hm')
         · right; exact ⟨hm', by have := wf.idx_range hm'; omega⟩
@@ -118,7 +118,7 @@ theorem EntryCase.xmirror {e e' : LookupEnc} {k oid} {t : LookupDec} (wf : e.loo
       · right
         have hb : (e.lookup.data.length + 1 == e.lastAssigned + 1) = false := by simpa using hc
         simp only [hb, Bool.false_eq_true, if_false]; exact hc
-  | evict k0 i0 rest hk hd hfull he ho =>
+  | evict k0 i0 rest hk hd hfull hnp he ho =>
     subst he ho
     have hmem0 : (k0, i0) ∈ e.lookup.data := by rw [hd]; simp
     have hr0 := wf.idx_range hmem0
@@ -132,9 +132,10 @@ theorem EntryCase.xmirror {e e' : LookupEnc} {k oid} {t : LookupDec} (wf : e.loo
     have hidxnd : (i0 :: rest.map (·.2)).Nodup :=
       (hidx.nodup_iff).mpr (List.nodup_range' (step := 1) (by omega))
     refine ⟨_, assign_eq (i := i0) (by omega) (by have := m.em.size; omega) hid, ?_, rfl, ?_⟩
-    · apply xmirror_after_set (l' := { e.lookup with data := rest ++ [(k, i0)] }) wf m rfl (by omega) (by omega)
+    · apply xmirror_after_set (l' := ({ e.lookup with data := rest ++ [(k, i0)] } : Lookup).pin k) wf m (by simp)
+        (by omega) (by omega)
       intro k' i'
-      simp only [List.mem_append, List.mem_singleton]
+      simp only [Lookup.pin_data, List.mem_append, List.mem_singleton]
       constructor
       · rintro (hm' | hm')
         · right
@@ -207,15 +208,18 @@ structure UsedA (e e2 : LookupEnc) (k : String) (oid : Option Nat) : Prop where
     ∃ t', ingestEntry t oid k = .ok t' ∧ XMirror e2 t' ∧ t'.lastReused = t.lastReused ∧
       ∀ a, entryRowAudit t oid k a = a
 
+/-- Either the entry is refused (`JellyConformanceError`, the row does not fit) or it is audited. -/
 theorem entry_pkgA {e : LookupEnc} {k : String} (wf : e.lookup.WF) (hpos : 0 < e.lookup.maxSize) :
+    e.entryIndex k = .error .conformance ∨
     ∃ e1 oid i, e.entryIndex k = .ok (e1, oid) ∧ e1.lookup.WF ∧ e1.lookup.maxSize = e.lookup.maxSize ∧
       e1.lastReused = e.lastReused ∧ (k, i) ∈ e1.lookup.data ∧
       (∀ t, XMirror e t →
         ∃ t', ingestEntry t oid k = .ok t' ∧ XMirror e1 t' ∧ t'.lastReused = t.lastReused ∧
           ∀ a, entryRowAudit t oid k a = a) := by
-  obtain ⟨e1, oid, heq, c⟩ := entryIndex_cases wf hpos k
-  obtain ⟨wf1, hmax, hlr, i, hi⟩ := c.basic wf hpos
-  exact ⟨e1, oid, i, heq, wf1, hmax, hlr, hi, fun t m => c.xmirror wf m⟩
+  rcases entryIndex_cases wf hpos k with ⟨e1, oid, heq, c⟩ | hr
+  · obtain ⟨wf1, hmax, hlr, i, hi⟩ := c.basic wf hpos
+    exact Or.inr ⟨e1, oid, i, heq, wf1, hmax, hlr, hi, fun t m => c.xmirror wf m⟩
+  · exact Or.inl hr.err
 
 theorem UsedA.of_step {e e1 e2 : LookupEnc} {k oid}
     (hmax : e1.lookup.maxSize = e.lookup.maxSize)
@@ -229,11 +233,14 @@ theorem UsedA.of_step {e e1 e2 : LookupEnc} {k oid}
 
 /-- Name table: the id is 0 exactly when the zero form applies. -/
 theorem useNameA {e : LookupEnc} {k : String} (wf : e.lookup.WF) (hpos : 0 < e.lookup.maxSize) :
+    e.entryIndex k = .error .conformance ∨
     ∃ e1 oid e2 id, e.entryIndex k = .ok (e1, oid) ∧ e1.nameTermIndex k = .ok (e2, id) ∧
       UsedA e e2 k oid ∧
       ((id = 0 ∧ e2.lastReused = e.lastReused + 1) ∨
        (id ≠ 0 ∧ id ≠ e.lastReused + 1 ∧ e2.lastReused = id)) := by
-  obtain ⟨e1, oid, i, heq, wf1, hmax, hlr, hi, hmir⟩ := entry_pkgA (k := k) wf hpos
+  rcases entry_pkgA (k := k) wf hpos with h | ⟨e1, oid, i, heq, wf1, hmax, hlr, hi, hmir⟩
+  · exact Or.inl h
+  right
   have hi1 := (wf1.idx_range hi).1
   refine ⟨e1, oid, _, _, heq, nameTermIndex_exact wf1 hi,
     UsedA.of_step hmax hmir (TermStep.bump wf1 hi i), ?_⟩
@@ -246,19 +253,25 @@ theorem useNameA {e : LookupEnc} {k : String} (wf : e.lookup.WF) (hpos : 0 < e.l
     exact ⟨by omega, hc, trivial⟩
 
 theorem usePrefixA {e : LookupEnc} {k : String} (wf : e.lookup.WF) (hpos : 0 < e.lookup.maxSize) :
+    e.entryIndex k = .error .conformance ∨
     ∃ e1 oid e2 id, e.entryIndex k = .ok (e1, oid) ∧ e1.prefixTermIndex k = .ok (e2, id) ∧
       UsedA e e2 k oid ∧
       ((id = 0 ∧ e2.lastReused = e.lastReused) ∨
        (id ≠ 0 ∧ id ≠ e.lastReused ∧ e2.lastReused = id)) := by
-  obtain ⟨e1, oid, i, heq, wf1, hmax, hlr, hi, hmir⟩ := entry_pkgA (k := k) wf hpos
+  rcases entry_pkgA (k := k) wf hpos with h | ⟨e1, oid, i, heq, wf1, hmax, hlr, hi, hmir⟩
+  · exact Or.inl h
+  right
   obtain ⟨e2, id, hti, hstep, _, hz⟩ := prefixTermIndex_exact wf1 (by rw [hmax]; exact hpos) hi
   refine ⟨e1, oid, e2, id, heq, hti, UsedA.of_step hmax hmir hstep, ?_⟩
   rw [← hlr]; exact hz
 
 theorem useDatatypeA {e : LookupEnc} {k : String} (wf : e.lookup.WF) (hpos : 0 < e.lookup.maxSize) :
+    e.entryIndex k = .error .conformance ∨
     ∃ e1 oid e2 id, e.entryIndex k = .ok (e1, oid) ∧ e1.datatypeTermIndex k = .ok (e2, id) ∧
       UsedA e e2 k oid ∧ id ≠ 0 := by
-  obtain ⟨e1, oid, i, heq, wf1, hmax, hlr, hi, hmir⟩ := entry_pkgA (k := k) wf hpos
+  rcases entry_pkgA (k := k) wf hpos with h | ⟨e1, oid, i, heq, wf1, hmax, hlr, hi, hmir⟩
+  · exact Or.inl h
+  right
   obtain ⟨hti, hne, _⟩ := datatypeTermIndex_sim wf1 (by rw [hmax]; exact hpos) hi
   exact ⟨e1, oid, _, i, heq, hti, UsedA.of_step hmax hmir (TermStep.bump wf1 hi i), hne⟩
 
